@@ -70,6 +70,10 @@ CLAIMED = {
          "Exploration by runtime monitoring: generated directory trees (duplicate base names, name.lua vs name/init.lua, native .so, names that only match across a path-component boundary) with a main file requiring modules by dotted, slashed and suffix-only strings, require with/without parentheses and dofile; for every module string the 'file not found' diagnostic, the go-to-definition target and the hover text must agree with the documented mapping and with each other; then a module file is deleted or created with a watched-files event and everything is compared again. One labelled case runs in a workspace whose path contains a dot.",
          "R-mod returns a candidate set (suffix semantics); any candidate is accepted, a single candidate must be hit exactly. Only the default separator is explored; suffix-only names of .so modules are not asserted (undocumented).",
          "DESIGN.md 3/C18"),
+ "C13": ("online monitor: hover contents vs the planted declaration and its attached comment (byte comparison after the tool's documented marker clean-up)",
+         "Exploration by runtime monitoring: generated declarations (local number/string/table, global, global/local function, table member functions) x comment placement (trailing, block of 1-3 lines above, both, none, detached by a blank line) x script (ASCII, Latin-1, Cyrillic, Greek, CJK, Hangul, astral, mixed) x comment marker; hover at the declaration and at a use must show a label with the identifier, `local` iff declared local, the literal as written (integers, strings), the parameters in order, and as documentation exactly the bytes of the attached comment (trailing comment first, else the block ending on the previous line, else nothing).",
+         "The expected comment attachment rule is the one the property states. Float literals are not asserted (the tool prints them in exponent form).",
+         "DESIGN.md 3/C13"),
 }
 
 PENDING_REASON = "check not built yet in this revision of /verif (work in progress; see DESIGN.md section 3 for the planned monitor)"
